@@ -23,6 +23,7 @@ use discret::verif_hooks::database::node::{Node, NodeDeletionEntry};
 use discret::verif_hooks::database::system_entities::Invite;
 use discret::verif_hooks::database::Error as DbError;
 use discret::verif_hooks::event_service::EventService;
+use discret::verif_hooks::signature_verification_service::SignatureVerificationService;
 use discret::verif_hooks::security::{
     self, base64_encode, Ed25519SigningKey, HardwareFingerprint, SigningKey, VerifyingKey,
 };
@@ -403,6 +404,33 @@ fn real_verify(r: &Row, sig: Vec<u8>) -> String {
     }
 }
 
+/// The same question put to the verification SERVICE that synchronisation uses (`nodes_check` / `edges_check`), after
+/// the genuine row `a` has gone through it — as it would have in an earlier synchronisation of the same process.
+/// `None` when the pair is not two rows or two references.
+fn service_verify(a: &Row, b: &Row, sig: Vec<u8>, signer_key: &[u8]) -> Option<String> {
+    let res = std::panic::catch_unwind(std::panic::AssertUnwindSafe(|| {
+        match (real_of(a, sig.clone())?, real_of(b, sig)?) {
+            (Real::Node(mut na), Real::Node(nb)) => {
+                na.verifying_key = signer_key.to_vec(); // what sign() wrote into the genuine row
+                if SignatureVerificationService::nodes_check(vec![na]).is_err() { return None; } // a itself is not a storable row
+                Some(SignatureVerificationService::nodes_check(vec![nb]).is_ok())
+            }
+            (Real::Edge(mut ea), Real::Edge(eb)) => {
+                ea.verifying_key = signer_key.to_vec();
+                if SignatureVerificationService::edges_check(vec![ea]).is_err() { return None; }
+                Some(SignatureVerificationService::edges_check(vec![eb]).is_ok())
+            }
+            _ => None,
+        }
+    }));
+    match res {
+        Err(_) => Some("panic".into()),
+        Ok(None) => None,
+        Ok(Some(true)) => Some("accept".into()),
+        Ok(Some(false)) => Some("reject".into()),
+    }
+}
+
 // ------------------------------------------------------------------------------------------ instance
 
 const APP: &str = "dv digest";
@@ -475,6 +503,8 @@ async fn run(ops: &str, out: &str, stats_path: Option<&str>) {
     let mut inst: Option<Inst> = None;
     let folder = PathBuf::from(format!("{}.db{}", out, std::process::id()));
     let keys: Vec<Ed25519SigningKey> = (0..NKEYS).map(keypair).collect();
+    let mut case_index: i64 = -1; // index of the current case in the file (lines `<index> <signature> <detail>` of <out>.oracle)
+    let mut oracle_lines: Vec<String> = Vec::new();
     for line in std::io::BufReader::new(f).lines() {
         let line = line.unwrap();
         let (kind, kv) = parse_kv(&line);
@@ -482,6 +512,7 @@ async fn run(ops: &str, out: &str, stats_path: Option<&str>) {
         let res: String = match kind.as_str() {
             "case" => match kv.get("id").and_then(|v| v.parse::<u64>().ok()) {
                 Some(id) => {
+                    case_index += 1;
                     stats.inc("cases");
                     format!("case {}", id)
                 }
@@ -501,7 +532,20 @@ async fn run(ops: &str, out: &str, stats_path: Option<&str>) {
                 let b = Row::parse(kb, "b", &kv, true)?;
                 Some(match real_sign(&a, &keys[signer]) {
                     Err(c) => c,
-                    Ok(sig) => real_verify(&b, sig),
+                    Ok(sig) => {
+                        let direct = real_verify(&b, sig.clone());
+                        // independent oracle: the service must not accept what the row's own verify() rejects
+                        if let Some(svc) = service_verify(&a, &b, sig, &spk) {
+                            stats.inc(&format!("service.{}", svc));
+                            if svc == "accept" && direct != "accept" {
+                                oracle_lines.push(format!(
+                                    "{} verification-service-accepts-forged-row the service accepted a {} carrying the signature of another {} ({}): verify() says {}",
+                                    case_index, kb, ka, line.chars().take(160).collect::<String>(), direct
+                                ));
+                            }
+                        }
+                        direct
+                    }
                 })
             })()
             .unwrap_or("bad-op".into()),
@@ -581,6 +625,11 @@ async fn run(ops: &str, out: &str, stats_path: Option<&str>) {
         writeln!(w, "{}", res).unwrap();
     }
     w.flush().unwrap();
+    if !oracle_lines.is_empty() {
+        std::fs::write(format!("{}.oracle", out), oracle_lines.join("\n") + "\n").unwrap();
+    } else {
+        let _ = std::fs::remove_file(format!("{}.oracle", out));
+    }
     if let Some(i) = inst {
         let folder = i.folder.clone();
         drop(i);
